@@ -113,18 +113,20 @@ class Stream:
                 e = 'err-' + type(ex).__name__; self.ctx.count(e)
         self.req.append(r); self.exp.append(e); self.meta.append((kind, oracle, info))
 
-    def model_parallel(self, nproc=8):
-        """pipe the requests through several driver processes (round-robin split, order restored)"""
+    def model_parallel(self, nproc=12):
+        """pipe the requests through several driver processes (round-robin split into 4*nproc parts served by a
+        pool of nproc workers, order restored)"""
         from concurrent.futures import ThreadPoolExecutor
         n = len(self.req)
-        if n < 4 * nproc:
+        if n < 8 * nproc:
             return self.ctx.model(self.exe, self.req)
-        parts = [self.req[i::nproc] for i in range(nproc)]
+        nparts = 4 * nproc
+        parts = [self.req[i::nparts] for i in range(nparts)]
         with ThreadPoolExecutor(nproc) as ex:
             outs = list(ex.map(lambda part: self.ctx.model(self.exe, part), parts))
         got = [None] * n
         for i, o in enumerate(outs):
-            got[i::nproc] = o
+            got[i::nparts] = o
         return got
 
     def run(self, name, theorems, skip=lambda e, g: False):
